@@ -471,6 +471,10 @@ def replay(rec):
         r2 = torch.relu(q2)
         aliased = getattr(r2, "_scale", None) is q2._scale and torch.equal(q._data, q2._data) and not torch.equal(q._scale, q2._scale) and torch.equal(q._scale.double(), o._scale.double().expand_as(q._scale))
         key = ["C05/op-result-aliases-operand-scale"] if aliased else None
+    if probs and op.name in ("relu-after-negation", "lt-same-scale-after-negation") and isinstance(q, QTensor):
+        # known finding only for its root cause: multiplying by a negative scalar leaves the codes and makes the SCALE negative
+        neg_scale = isinstance(q * -1.0, QTensor) and bool(((q * -1.0)._scale < 0).all()) and bool((q._scale > 0).all())
+        key = ["C05/negative-scale-after-scalar-mul"] if neg_scale else None
     if probs and op.name == "neg" and (q._data == -128).any() if q.qtype.bits == 8 and not q.qtype.is_floating_point else False:
         key = ["C05/neg-of-int8-minimum"]
     return bool(probs), f"{op.name} on state {inp['state']}: " + "; ".join(probs[:3]) if probs else f"{op.name}: equals the float program", key if probs else None
